@@ -178,7 +178,7 @@ fn enum_seqs(alpha: &[u8], maxlen: usize, minlen: usize) -> Vec<Vec<u8>> {
 }
 
 pub fn gen(tier: &str, rng: &mut Rng, out: &mut Vec<String>) {
-    let n = if tier == "thorough" { 500_000 } else { 10_000 };
+    let n = if tier == "thorough" { 200_000 } else { 10_000 };
     for i in 0..n {
         match i % 10 {
             8 => gen_uk(rng, out),
